@@ -33,6 +33,10 @@ PROGRAMS = [
     ('dictcomp_iter', 'def f(pairs):\n    return [k for k in {n: v for n, v in pairs}]\n'),
     ('posonly', 'class X:\n    def m(self, /, request: Request, flags: Flags = 0):\n        return request\n'),
     ('read_del', 'def f():\n    print(x); del x\n'),
+    ('walrus_lambda_comp', 'def f(z):\n    return list((lambda: (y := x))() for x in z)\n'),
+    ('import_dotted3', 'def f():\n    import xml.etree.ElementTree\n    import a.b.c as d\n    return xml, d\n'),
+    ('lambda_kwdefault', 'def f(scale):\n    return lambda v, *, s=scale, t=other, **k: v * s\n'),
+    ('nested_lambda_defaults', 'def f(p, q):\n    g = lambda a=p, *b, c=q, d=r: (\n        lambda e=a: e + s)\n    return g\n'),
 ]
 
 
